@@ -354,6 +354,14 @@ class Elem:
                 return sp.Symbol("UNINIT")
             if short == "broadcast_arrays":
                 return tuple(self.expr(a) for a in e.args)
+            if short == "einsum" and e.args and isinstance(e.args[0], ast.Constant) and isinstance(e.args[0].value, str) and "->" in e.args[0].value:
+                spec = e.args[0].value.replace(" ", "").replace("...", "")
+                ins, out_ = spec.split("->")
+                prod = sp.Integer(1)
+                for a in e.args[1:]:
+                    prod = prod * self.indicator(self.expr(a))
+                summed = set("".join(ins.split(","))) - set(out_)
+                return LinearSum(prod) if summed else prod
             args = [self.expr(a) for a in e.args]
             if short in UFUNCS and len(args) == 1:
                 return UFUNCS[short](args[0])
